@@ -182,6 +182,28 @@ def main(argv):
     chk.obligation("oracle: sync = fallbacks; blocking returns exactly when all tasks finished with every boundary resolved; streaming = shell once, "
                    "each boundary once, never before its parent (the inline script finds its markers), shell + fragments = blocking result",
                    not [o for o in orfail if o["program"].startswith("(")], str(orfail[:1]))
+    # content outside the boundary whose task removes it (lenient on what the client shows, strict on the blocking render)
+    lcases = susrender.cases(a.tier, rng, lenient=True)
+    lfail = []
+    try:
+        limpl = susrender.run_impl(binr, lcases)
+        lmodel = susrender.run_model(PID + "l", lcases)
+        for i, ((vs, sched), im) in enumerate(zip(lcases, limpl)):
+            obs = susrender.observe(*im)
+            fails = susrender.oracle(vs, sched, obs, lenient=True)
+            chk.note_case("L" + " ".join(susrender.sx(v) for v in vs) + str(sched), True)
+            inp = " ".join(susrender.sx(v) for v in vs)
+            if fails:
+                lfail.append({"program": inp, "schedule": str(sched), "failures": fails[:4], "output": susrender.model_lines(obs, sched)})
+            elif susrender.normalize_model(lmodel[i])[1] != susrender.model_lines(obs, sched)[1]:
+                mism.append({"program": inp, "schedule": str(sched), "impl": susrender.model_lines(obs, sched)[1], "model": lmodel[i][1]})
+                broken.append("correspondence (blocking render, content removed from outside): " + inp)
+    except RuntimeError as e:
+        lfail.append({"program": "lenient family", "schedule": "", "failures": [str(e)[-600:]]})
+    chk.obligation("oracle and Stream.v (blocking line) on %d (view, gate order) pairs in which a task of one boundary removes content -- loading boundaries included -- that lies outside it: "
+                   "the blocking render returns exactly when the surviving tasks have finished, the stream ends, repeats nothing and never panics" % len(lcases),
+                   not lfail and not any(b.startswith("correspondence (blocking render, content removed") for b in broken), str(lfail[:1]))
+    orfail += lfail
     # a Resource read under a boundary is a task registered under it, and every refetch registers again: the boundary must report
     # loading exactly while the resource's latest fetch is outstanding (histories of C15; real sycamore-web Resource, ssr-driver)
     import c15
